@@ -421,3 +421,41 @@ def join_meet_extreme(ctx):
         ln = g.join(g.Point([float(x_) for x_ in tri[0]]), g.Point([float(x_) for x_ in tri[1]]))
         ok = all(all(v == 0 for v in [sum(F(ln.array)[4 * k + l_] * Fraction(pt[k]) for k in range(4)) for l_ in range(4)]) for pt in tri[:2])
         ctx.ensure("3d:join-PP-incident-exactly", ok and any(F(ln.array)), witness=dict(points=tri[:2], got=ln.array.tolist()))
+
+
+def _mask_case(name, dim, kinds, op):
+    n = dim + 1
+    syms = []
+    for i, (k, coll) in enumerate(kinds):
+        syms += names("x%d_" % i, *((2,) if coll else ()), n)
+
+    @case("C02", "mask.%s" % name, syms, mode="field", functions=FUN + ["geometer.exceptions.LinearDependenceError.__init__"], max_paths=200,
+          assumptions=["collection shape (2,) enumerated (bounded in the shape)"])
+    def _(ctx):
+        geometer, ex = _g()
+        cls = {"P": (geometer.Point, geometer.PointCollection), "E": (geometer.Plane if dim == 3 else geometer.Line, geometer.PlaneCollection if dim == 3 else geometer.LineCollection)}
+        arrs, objs = [], []
+        for i, (k, coll) in enumerate(kinds):
+            a = ctx.arr("x%d_" % i, *((2,) if coll else ()), n)
+            arrs.append(a)
+            objs.append(cls[k][1 if coll else 0](a))
+        deps = [dependent(ctx, [a[k] if a.ndim == 2 else a for a in arrs]) for k in range(2)]
+        try:
+            with ctx.stubs():
+                getattr(geometer, op)(*objs)
+        except ex.LinearDependenceError as e:
+            mask = np.asarray(e.dependent_values, dtype=object) if ctx.symbolic else np.asarray(e.dependent_values)
+            ctx.ensure("raises-only-if-some-position-is-dependent", ctx.disj(deps))
+            ctx.ensure("mask-shape", tuple(mask.shape) == (2,))
+            if tuple(mask.shape) == (2,):
+                for k in range(2):
+                    mk = mask[k]
+                    ctx.ensure("mask[k]<=>position-k-dependent", ctx.iff(ctx.conj([mk]) if ctx.symbolic else bool(mk), deps[k]))
+            return
+        ctx.ensure("returns-only-if-no-position-is-dependent", ctx.neg(ctx.disj(deps)))
+
+
+_mask_case("join.PP.2d.cc", 2, [("P", True), ("P", True)], "join")
+_mask_case("join.PP.3d.cs", 3, [("P", True), ("P", False)], "join")
+_mask_case("meet.EE.3d.cc", 3, [("E", True), ("E", True)], "meet")
+_mask_case("join.PPP.3d.ccc", 3, [("P", True), ("P", True), ("P", True)], "join")
